@@ -1042,6 +1042,7 @@ package connect
 //@     invariant 0 - 1 <= rangeindex && rangeindex < |status.Details|
 
 
+//@ constfield connectUnaryClientConn.responseHeader, connectUnaryClientConn.responseTrailer, connectUnaryClientConn.compressionPools, connectUnaryClientConn.bufferPool, connectUnaryClientConn.duplexCall
 //@ func (*connectUnaryClientConn).validateResponse(cc, response) res
 //@   tags C06, C09
 //@   requires cc != nil && response != nil && cc.responseHeader != nil && cc.responseTrailer != nil && cc.compressionPools != nil
